@@ -313,6 +313,22 @@ def isnan(a):
     return False
 
 
+def isclose(a, b, rtol=1e-05, atol=1e-08, equal_nan=False):
+    """ASSUMED np.isclose on finite values: |a - b| <= atol + rtol * |b|  (NaN-carrying operands are outside the engine's reach)"""
+    for v in (a, b):
+        if isinstance(v, SArr) and v.nan is not None:
+            raise Unsupported('isclose on NaN-carrying array')
+    if not any(isinstance(v, (SArr, SInt, SReal)) for v in (a, b)):
+        import numpy as _np
+        return _np.isclose(a, b, rtol=rtol, atol=atol, equal_nan=equal_nan)
+    return abs_(a - b) <= (atol + rtol * abs_(b))
+
+
+def allclose(a, b, rtol=1e-05, atol=1e-08, equal_nan=False):
+    r = isclose(a, b, rtol=rtol, atol=atol, equal_nan=equal_nan)
+    return all_(r) if isinstance(r, SArr) else r
+
+
 def logical_and(a, b):
     return a & b            # (SArr.__and__ records the index interval when both operands are half-lines of one np.arange)
 
